@@ -214,8 +214,15 @@ def build(spec: dict) -> Built:
     b = Built()
     sul = spec.get('sul', {})
     try:
-        kw = {('sul_sequence_number' if k == 'sequence_number' else k): v for k, v in sul.items()}
-        b.df = DLISFile(**kw)
+        kw = {('sul_sequence_number' if k == 'sequence_number' else k): v for k, v in sul.items() if k != 'as_object'}
+        if sul.get('as_object'):
+            # the user hands in their own StorageUnitLabel instance (public API: DLISFile(storage_unit_label=...))
+            from dliswriter import StorageUnitLabel
+            lab = StorageUnitLabel(kw.get('set_identifier', 'MAIN-STORAGE-UNIT'), kw.get('sul_sequence_number', 1),
+                                   kw.get('max_record_length', 8192))
+            b.df = DLISFile(storage_unit_label=lab)
+        else:
+            b.df = DLISFile(**kw)
         for lfs in spec.get('lfs', [{}]):
             b.lfs.append(b.df.add_logical_file(**lfs))
     except Exception as e:      # noqa
@@ -282,6 +289,14 @@ def run_op(b: Built, i: int, op: dict, source: str = 'inline') -> None:
         setattr(attr, op.get('part', 'value'), mat_checked(op['value'], b))
     elif kind == 'setattr':
         setattr(b.handles[op['target']], op['field'], mat_checked(op['value'], b))
+    elif kind == 'set_header':
+        # lf.file_header.header_id / .sequence_number re-assigned (and the defining origin's FILE-ID kept in step)
+        lf = b.lfs[op.get('lf', 0)]
+        setattr(lf.file_header, op['field'], op['value'])
+        if op['field'] == 'header_id' and lf.defining_origin is not None:
+            lf.defining_origin.file_id.value = op['value']
+    elif kind == 'set_sul':
+        setattr(b.df.storage_unit_label, op['field'], op['value'])
     else:
         raise ValueError(f'unknown op {kind}')
 
